@@ -13,6 +13,7 @@ from __future__ import annotations
 
 import ast
 import os
+import re
 import pathlib
 import sys
 from fractions import Fraction
@@ -75,6 +76,10 @@ ORACLES = {
 }
 IGNORED_PARAMS = {'__exit__': {'exc_type', 'exc_value', 'traceback'}}
 CFG_TYPE = 'pcfg'          # record of the attributes read through self.<attr>
+EXTRA_PARAMS = ''          # binders in front of (c : CFG_TYPE) in every generated definition
+MONAD = 'MP'               # monad of the generated definitions
+EXPR_HOOKS = []            # per-group expression translations tried first: hook(tr, node, env) -> (effects, term) | None
+STMT_SKIP = []             # per-group statements that are deliberately not modelled: hook(stmt) -> bool
 LOCAL_ELT = {}             # method -> {local list name: element type}: elements appended to it are coerced
 
 # ---- second group: small pure methods of other classes (Gen: PureSrc.v; equivalences: coq/tie/PureEquiv.v)
@@ -139,6 +144,9 @@ class Env:
         self.meth = meth
         self.optvars = set(optvars or ())     # locals initialised with None: later values are wrapped in Some
         self.counter = [0]
+        self.loop_ret = []
+        self.params = []
+        self.fundef = None
 
     def fresh(self, base='v'):
         self.counter[0] += 1
@@ -153,6 +161,10 @@ class Tr:
     # returns (effects, term); effects = list of (var, monadic term) to bind before the term is evaluated
 
     def E(self, e, env) -> tuple[list, str]:
+        for hook in EXPR_HOOKS:
+            r = hook(self, e, env)
+            if r is not None:
+                return r
         k = type(e).__name__
         fn = getattr(self, 'E_' + k, None)
         if fn is None:
@@ -252,6 +264,8 @@ class Tr:
     def E_UnaryOp(self, e, env):
         if isinstance(e.op, ast.Not):
             eff, t = self.E(e.operand, env)
+            if isinstance(e.operand, (ast.Name, ast.Attribute)):
+                t = f'(truthy {t})'
             return eff, f'(negb {t})'
         if isinstance(e.op, ast.USub):
             if isinstance(e.operand, ast.Constant) and isinstance(e.operand.value, (int, float)):
@@ -354,6 +368,9 @@ class Tr:
         if isinstance(it, ast.Call):
             f = it.func
             fname = f.id if isinstance(f, ast.Name) else (f.attr if isinstance(f, ast.Attribute) else None)
+            if fname == 'range' and isinstance(f, ast.Name) and len(it.args) == 1 and not it.keywords:
+                e1, t1 = self.E(it.args[0], env)
+                return e1, f'(zrange (of_int 0) {t1})'
             if fname == 'range' and isinstance(f, ast.Name) and len(it.args) == 2 and not it.keywords:
                 e1, t1 = self.E(it.args[0], env)
                 e2, t2 = self.E(it.args[1], env)
@@ -563,6 +580,8 @@ class Tr:
         if not stmts:
             return tail
         s, rest = stmts[0], stmts[1:]
+        if any(h(s) for h in STMT_SKIP):
+            return self.T(rest, env, tail)
         k = type(s).__name__
         fn = getattr(self, 'T_' + k, None)
         if fn is None:
@@ -588,6 +607,9 @@ class Tr:
 
     def T_Expr(self, s, rest, env, tail):
         v = s.value
+        if isinstance(v, ast.Yield) and METHODS[env.meth][0] == 'generator' and v.value is not None:
+            eff, t = self.E(v.value, env)
+            return self.wrap(eff, f'emit_yield {t} ;;; {self.T(rest, env, tail)}')
         if isinstance(v, ast.Constant) and isinstance(v.value, str):      # docstring
             return self.T(rest, env, tail)
         if isinstance(v, ast.Call):
@@ -626,7 +648,9 @@ class Tr:
                 elt = LOCAL_ELT.get(env.meth, {}).get(f.value.id)
                 items = [v.args[0]] if f.attr == 'append' else (v.args[0].elts if isinstance(v.args[0], ast.List) else None)
                 if items is None:
-                    raise Unsupported('extend of a local list by something other than a list display')
+                    # lst.extend(e) with e a list-valued expression
+                    eff, t = self.E(v.args[0], env)
+                    return self.wrap(eff, f'let {n} := ({n} ++ {t})%list in {self.T(rest, env, tail)}')
                 effs, ts = [], []
                 for it in items:
                     eff, t = self.E(it, env)
@@ -643,6 +667,11 @@ class Tr:
             eff, t = self.E(s.value, env)
             fld = STATE_ATTRS[tg.attr]
             return self.wrap(eff, f'modify (set_{fld} {t}) ;;; {self.T(rest, env, tail)}')
+        if (isinstance(tg, ast.Name) and isinstance(s.value, ast.Call) and isinstance(s.value.func, ast.Attribute)
+                and s.value.func.attr == 'pop' and isinstance(s.value.func.value, ast.Name) and len(s.value.args) == 1
+                and isinstance(s.value.args[0], ast.Constant) and s.value.args[0].value == 0 and not s.value.keywords):
+            lst = cname(s.value.func.value.id)      # x = lst.pop(0): IndexError on an empty list
+            return f'match {lst} with [] => raise EIndex | {cname(tg.id)} :: {lst} => {self.T(rest, env, tail)} end'
         if isinstance(tg, ast.Name):
             if dump(s.value) == DVAR_ARGS:
                 return f'let {cname(tg.id)} := [PDvars variables] in {self.T(rest, env, tail)}'
@@ -723,22 +752,37 @@ class Tr:
                    if isinstance(n, ast.Call) and isinstance(n.func, ast.Attribute) and isinstance(n.func.value, ast.Name)
                    and n.func.attr in ('append', 'extend') and n.func.value.id != 'self'}
         assigned = sorted(set(assigned) | mutated)
+        popped = {n.func.value.id for b in s.body for n in ast.walk(b)
+                  if isinstance(n, ast.Call) and isinstance(n.func, ast.Attribute) and isinstance(n.func.value, ast.Name)
+                  and n.func.attr == 'pop' and n.func.value.id != 'self'}
+        assigned = sorted(set(assigned) | popped)
         targets = {n.id for n in ast.walk(s.target) if isinstance(n, ast.Name)}
-        carried = [a for a in assigned if a not in targets and a in env.defined]
-        for a in assigned:
-            if a not in targets and a not in env.defined:
-                # a loop-local temporary: must not be read after the loop
-                pass
-        cpat = 'tt' if not carried else ("'(" + ', '.join(cname(a) for a in carried) + ')' if len(carried) > 1 else cname(carried[0]))
-        cval = 'tt' if not carried else ('(' + ', '.join(cname(a) for a in carried) + ')' if len(carried) > 1 else cname(carried[0]))
+        # carried through the iterations: names (re)bound in the body that were already bound before the loop
+        before = set(env.params) | {n.id for n in ast.walk(env.fundef) if isinstance(n, ast.Name) and isinstance(n.ctx, ast.Store)
+                                    and n.lineno < s.lineno}
+        carried = [a for a in assigned if a not in targets and a in before]
+        has_break = any(isinstance(st, ast.Break) for st in ast.walk(ast.Module(body=s.body, type_ignores=[])))
+        names = [cname(a) for a in carried] + (['brk__'] if has_break else [])
+        cpat = 'tt' if not names else ("'(" + ', '.join(names) + ')' if len(names) > 1 else names[0])
+        cval = 'tt' if not names else ('(' + ', '.join(names) + ')' if len(names) > 1 else names[0])
         for st in ast.walk(ast.Module(body=s.body, type_ignores=[])):
-            if isinstance(st, (ast.Return, ast.Break, ast.Continue)):
-                raise Unsupported('return / break / continue inside a for loop')
+            if isinstance(st, (ast.Return, ast.Continue)) or (isinstance(st, ast.For) and has_break):
+                raise Unsupported('return / continue (or a nested loop around a break) inside a for loop')
+        env.loop_ret.append(cval)
         body_t = self.T(list(s.body), env, f'ret {cval}')
+        env.loop_ret.pop()
+        if has_break:
+            body_t = f'if brk__ then ret {cval} else {body_t}'
         pat = self.pattern(s.target)
-        loop = f'for_each {ti} {cval} (fun {pat} {cpat} => {body_t})'
-        binder = cpat if carried else '_'
-        return self.wrap(ei, f'{binder} <- {loop} ;; {self.T(rest, env, tail)}')
+        init = cval if not has_break else ('(' + ', '.join([cname(a) for a in carried] + ['false']) + ')' if carried else 'false')
+        loop = f'for_each {ti} {init} (fun {pat} {cpat} => {body_t})'
+        binder = cpat if names else '_'
+        return self.wrap(ei, f'bind ({loop}) (fun {binder} => {self.T(rest, env, tail)})')
+
+    def T_Break(self, s, rest, env, tail):
+        if not env.loop_ret:
+            raise Unsupported('break outside a for loop')
+        return f'let brk__ := true in ret {env.loop_ret[-1]}'
 
     def T_With(self, s, rest, env, tail):
         if dump(s) == HEADER_WITH:
@@ -764,7 +808,7 @@ class Tr:
         if d is None:
             raise Unsupported(f'method {name} not found')
         decos = [dump(x) for x in d.decorator_list]
-        want = {'property': ["Name(id='property')"], 'method': [],
+        want = {'property': ["Name(id='property')"], 'method': [], 'generator': [],
                 'ctx': ["Attribute(value=Name(id='contextlib'), attr='contextmanager')"]}[kind]
         if decos != want:
             raise Unsupported(f'decorators of {name}: {decos}')
@@ -773,6 +817,7 @@ class Tr:
             raise Unsupported(f'signature of {name}: {pos}')
         env = Env(name)
         env.defined = set(pos)
+        env.params, env.fundef = pos, d
         # names defined before a loop: collected on the fly (assignments in order of appearance)
         for n in ast.walk(d):
             if isinstance(n, ast.Name) and isinstance(n.ctx, ast.Store):
@@ -781,7 +826,7 @@ class Tr:
         params = ''.join(f' ({cname(p)} : {t})' for p, t in sig)
         if kind == 'ctx':
             params += ' (body__ : MP unit)'
-        return f'Definition src_{name} (c : {CFG_TYPE}){params} : MP ({rty}) :=\n  {body}.\n'
+        return f'Definition src_{name} {EXTRA_PARAMS}(c : {CFG_TYPE}){params} : {MONAD} ({rty}) :=\n  {body}.\n'
 
 
 PREAMBLE = '''(* GENERATED by harness/py2coq.py from %s -- do not edit.
@@ -813,13 +858,68 @@ def translate(src_path: str) -> str:
     return ''.join(out)
 
 
+# ---- Trench.toolpath: the work list of the floor tool-path generator, with the geometry library as an oracle record `geom`
+def _h_is_empty(tr, e, env):
+    if isinstance(e, ast.Attribute) and e.attr == 'is_empty' and isinstance(e.value, ast.Name):
+        return [], f'(g_is_empty G {cname(e.value.id)})'
+
+
+def _h_inset(tr, e, env):
+    # self.buffer_polygon(P, offset=-np.fabs(self.delta_floor))
+    if (isinstance(e, ast.Call) and isinstance(e.func, ast.Attribute) and e.func.attr == 'buffer_polygon'
+            and isinstance(e.func.value, ast.Name) and e.func.value.id == 'self' and len(e.args) == 1 and isinstance(e.args[0], ast.Name)
+            and len(e.keywords) == 1 and e.keywords[0].arg == 'offset'
+            and dump(e.keywords[0].value) == "UnaryOp(op=USub(), operand=Call(func=Attribute(value=Name(id='np'), attr='fabs'), "
+                                             "args=[Attribute(value=Name(id='self'), attr='delta_floor')], keywords=[]))"):
+        return [], f'(g_inset G {cname(e.args[0].id)})'
+
+
+def _h_hatch(tr, e, env):
+    # self.zigzag(P.buffer(1.05 * self.delta_floor))
+    if (isinstance(e, ast.Call) and isinstance(e.func, ast.Attribute) and e.func.attr == 'zigzag'
+            and isinstance(e.func.value, ast.Name) and e.func.value.id == 'self' and len(e.args) == 1 and not e.keywords):
+        a = e.args[0]
+        if (isinstance(a, ast.Call) and isinstance(a.func, ast.Attribute) and a.func.attr == 'buffer' and isinstance(a.func.value, ast.Name)
+                and len(a.args) == 1 and not a.keywords
+                and dump(a.args[0]) == "BinOp(left=Constant(value=1.05), op=Mult(), right=Attribute(value=Name(id='self'), attr='delta_floor'))"):
+            pn = cname(a.func.value.id)
+            return [], f'({pn}, g_hatch G {pn})'
+
+
+def _h_size(tr, e, env):
+    if isinstance(e, ast.Attribute) and e.attr == 'size' and isinstance(e.value, ast.Name):
+        return [], f'(snd {cname(e.value.id)})'
+
+
+def _h_contour(tr, e, env):
+    # np.array(P.exterior.coords).T
+    if isinstance(e, ast.Attribute) and e.attr == 'T' and isinstance(e.value, ast.Call):
+        m = re.fullmatch(r"Call\(func=Attribute\(value=Name\(id='np'\), attr='array'\), args=\[Attribute\(value=Attribute\(value=Name\(id='(\w+)'\), "
+                         r"attr='exterior'\), attr='coords'\)\], keywords=\[\]\)", dump(e.value))
+        if m:
+            return [], f'(YContour {cname(m.group(1))})'
+
+
+def _skip_lengths(st):
+    # length bookkeeping (self._wall_length / self._floor_length): property C09's subject, not part of the yield sequence
+    tg = st.targets[0] if isinstance(st, ast.Assign) and len(st.targets) == 1 else (st.target if isinstance(st, ast.AugAssign) else None)
+    return (isinstance(tg, ast.Attribute) and isinstance(tg.value, ast.Name) and tg.value.id == 'self'
+            and tg.attr in ('_wall_length', '_floor_length'))
+
+
+PURE_SPECS.append(
+    dict(out='SrcTr.v', file='trench.py', cls='Trench', cfg_type='tr_cfg Poly', cfg_prefix='tr', cfg_attrs={'block', 'num_insets'},
+         methods={'toolpath': ('generator', [], 'unit')}, local_elt={}, extra_params='{Poly : Type} (G : geom Poly) ', monad='MY Poly',
+         expr_hooks=[_h_is_empty, _h_inset, _h_hatch, _h_size, _h_contour], stmt_skip=[_skip_lengths], imports='TrState', femto_imports=' Trench.Toolpath'))
+
+
 PURE_PREAMBLE = '''(* GENERATED by harness/py2coq.py from src/femto/%s -- do not edit.
    Small pure methods (point count, Nasu pass order, number of wall passes, adjusted bridge); PureEquiv.v relates them to
    Path/Sampling.v, Writers/Writers.v, Trench/TreeProofs.v. *)
 From Coq Require Import List Bool ZArith NArith QArith Qabs Qround String Ascii.
 Import ListNotations.
-From Femto Require Import Base.Num.
-From FemtoTie Require Import PyPrelude PgmState PureState.
+From Femto Require Import Base.Num%s.
+From FemtoTie Require Import PyPrelude PgmState %s.
 Local Open Scope string_scope.
 Local Open Scope list_scope.
 
@@ -827,9 +927,9 @@ Local Open Scope list_scope.
 
 
 def translate_pure(src_dir: str, spec: dict) -> str:
-    global METHODS, CFG_ATTRS, STATE_ATTRS, ORACLES, CFG_TYPE, LOCAL_ELT
-    saved = (METHODS, CFG_ATTRS, STATE_ATTRS, ORACLES, CFG_TYPE, LOCAL_ELT)
-    out = [PURE_PREAMBLE % spec['file']]
+    global METHODS, CFG_ATTRS, STATE_ATTRS, ORACLES, CFG_TYPE, LOCAL_ELT, EXTRA_PARAMS, MONAD, EXPR_HOOKS, STMT_SKIP
+    saved = (METHODS, CFG_ATTRS, STATE_ATTRS, ORACLES, CFG_TYPE, LOCAL_ELT, EXTRA_PARAMS, MONAD, EXPR_HOOKS, STMT_SKIP)
+    out = [PURE_PREAMBLE % (spec['file'], spec.get('femto_imports', ''), spec.get('imports', 'PureState'))]
     try:
         mod = ast.parse(pathlib.Path(src_dir, spec['file']).read_text())
         cls = [n for n in mod.body if isinstance(n, ast.ClassDef) and n.name == spec['cls']]
@@ -837,18 +937,20 @@ def translate_pure(src_dir: str, spec: dict) -> str:
             raise Unsupported(f"class {spec['cls']} not found in {spec['file']}")
         METHODS, CFG_ATTRS, STATE_ATTRS, ORACLES = spec['methods'], spec['cfg_attrs'], {}, {}
         CFG_TYPE, LOCAL_ELT = spec['cfg_type'], spec['local_elt']
+        EXTRA_PARAMS, MONAD = spec.get('extra_params', ''), spec.get('monad', 'MP')
+        EXPR_HOOKS, STMT_SKIP = spec.get('expr_hooks', []), spec.get('stmt_skip', [])
         tr = Tr(cls[0])
         out.append('\n'.join(f"Notation cfg_{a} := {spec['cfg_type'][:2]}_{a}." for a in sorted(CFG_ATTRS)) + '\n\n')
         for name in METHODS:
             out.append(tr.method(name))
             out.append('\n')
     finally:
-        METHODS, CFG_ATTRS, STATE_ATTRS, ORACLES, CFG_TYPE, LOCAL_ELT = saved
+        METHODS, CFG_ATTRS, STATE_ATTRS, ORACLES, CFG_TYPE, LOCAL_ELT, EXTRA_PARAMS, MONAD, EXPR_HOOKS, STMT_SKIP = saved
     return ''.join(out)
 
 
 def main(argv):
-    """py2coq.py <dir of femto sources> <output dir> <group>...   groups: pgm (PgmSrc.v), SrcLp.v, SrcNw.v, SrcTc.v"""
+    """py2coq.py <dir of femto sources> <output dir> <group>...   groups: pgm (PgmSrc.v), SrcLp.v, SrcNw.v, SrcTc.v, SrcTr.v"""
     if len(argv) < 3:
         print(main.__doc__, file=sys.stderr)
         return 2
